@@ -429,9 +429,9 @@ theorem coupled_mode {s : Srv} {b : Bot} (hw : SrvWF s) (hc : Coupled s b) (src 
           have hsep := separateModes_render (applyModes sc cs).2 (fun c hc => (hsh c hc).1)
             (fun c hc a ha => (hok c (hsh c hc).2) a ha)
           obtain ⟨ch', h1, h2, h3⟩ := applyModes_sim cs sc ch hok hrel0.2
-          simp only [Bot.stateCmd, cmdOf_MODE, Bot.doMode, (chanOK_of_valid hcw.name).isChan, ↓reduceIte, hchan,
+          simp only [Bot.stateCmd, cmdOf_MODE, Bot.doMode, isChannel_of_ok hc0.isup (chanOK_of_valid hcw.name), hchan,
             Chan.doMode, hsep, h1]
-          refine coupled_update' hc0 (lower c) rfl rfl rfl rfl rfl rfl ?_ ?_ ?_ rfl rfl rfl rfl rfl ?_ ?_
+          refine coupled_update' hc0 (lower c) rfl rfl rfl rfl rfl rfl ?_ ?_ ?_ rfl rfl rfl rfl rfl rfl ?_ ?_
           · intro k hk; exact aget_aset_ne _ _ (Ne.symm hk)
           · intro k hk; simp only [Bot.setChan, hcw.key]; exact aget_aset_ne _ _ (Ne.symm hk)
           · simp only [Bot.setChan, hcw.key, aget_aset_self, ChanRel]
@@ -446,7 +446,7 @@ theorem coupled_mode {s : Srv} {b : Bot} (hw : SrvWF s) (hc : Coupled s b) (src 
           · intro sc' h0; rw [hch] at h0; cases h0
       · simp only [hb, Bool.false_eq_true, ↓reduceIte, recvAll_nil]
         have hb' : sc.has s.botKey = false := by simpa [Srv.botIn] using hb
-        refine coupled_update' hc (lower c) rfl rfl rfl rfl rfl rfl ?_ (fun _ _ => rfl) ?_ rfl rfl rfl rfl rfl ?_ ?_
+        refine coupled_update' hc (lower c) rfl rfl rfl rfl rfl rfl ?_ (fun _ _ => rfl) ?_ rfl rfl rfl rfl rfl rfl ?_ ?_
         · intro k hk; exact aget_aset_ne _ _ (Ne.symm hk)
         · simp only [aget_aset_self]
           have hbn : aget b.channels (lower c) = none := by
